@@ -75,6 +75,7 @@ type Cfg struct {
 	MaxSteps int `json:"maxsteps"`
 	// consumers (C13) / extra
 	Consumers int `json:"consumers,omitempty"`
+	StartPaused bool `json:"startpaused,omitempty"` // pause the worker right after binding (C15 static mode)
 	CrashAt   int `json:"crashat,omitempty"` // crash the process at this cut point (adapter call / fn entry / fn exit), 0 = never
 }
 
@@ -352,6 +353,11 @@ func (wd *World) setup() {
 	wd.makeWorker()
 	for _, qc := range wd.cfg.Queues {
 		wd.bindQueue(qc, nil)
+	}
+	if wd.cfg.StartPaused {
+		c := wd.rec.begin(opPause, -1, -1)
+		c.Err = errText(wd.w.Pause())
+		wd.rec.end(c)
 	}
 }
 
